@@ -70,8 +70,8 @@ template <typename T>
 static bool in_safe_range(f128 v) {
   const f128 a = fabsq(v);
   if (a == 0) return true;
-  const f128 lo = ldexpq(1.0Q, Num<T>::emin + 8);
-  const f128 hi = ldexpq(1.0Q, Num<T>::emax - 8);
+  const f128 lo = ldexpq(1.0Q, Num<T>::emin + 1);
+  const f128 hi = ldexpq(1.0Q, Num<T>::emax - 1);
   return a >= lo && a <= hi;
 }
 
@@ -84,7 +84,7 @@ static void judge(Reporter& R, const std::string& tname, const std::string& from
   const f128 ref = (si - b.o) / b.f;
   // every term and the result must stay inside the normal range of T, otherwise the case says nothing
   if (!in_safe_range<T>(si) || !in_safe_range<T>(ref) || !in_safe_range<T>(xq * a.f) ||
-      (x != 0 && (fabsq(si) < ldexpq(1.0Q, Num<T>::emin + 8)))) {
+      (x != 0 && (fabsq(si) < ldexpq(1.0Q, Num<T>::emin + 1)))) {
     R.count("skipped_out_of_range");
     return;
   }
@@ -136,7 +136,7 @@ static void run_type_T(Reporter& R, const Args& A, const char* tname, uint64_t t
   const auto& units = Enumerators<U>::get();
   const auto& to_map = PhQ::Internal::MapOfConversionsToStandard<U, T>;
   const auto& from_map = PhQ::Internal::MapOfConversionsFromStandard<U, T>;
-  const int K = static_cast<int>(A.n("values", A.thorough() ? 600 : 24));
+  const int K = static_cast<int>(A.n("values", A.thorough() ? 600 : 64));
   uint64_t pair_index = 0;
   for (auto& pf : units) {
     for (auto& pt : units) {
@@ -162,6 +162,22 @@ static void run_type_T(Reporter& R, const Args& A, const char* tname, uint64_t t
           const T y = PhQ::Convert<U, T>(xv.first, from, to);
           judge<T>(R, tname, pf.second, pt.second, a->second, b->second, xv.first, y, xv.second, "runtime");
         }
+        // magnitudes next to the ends of the range: the largest (smallest) of |x|, its SI image and the result sits
+        // 2..6 binades inside the overflow (underflow) threshold, so nothing overflows in exact arithmetic
+        if (a->second.o == 0 && b->second.o == 0) {
+          const f128 fa = a->second.f, ratio = a->second.f / b->second.f;
+          f128 big = 1, small = 1;
+          for (f128 t : {fa, ratio}) {
+            if (t > big) big = t;
+            if (t < small) small = t;
+          }
+          for (int j = 2; j <= 6; j += 2) {
+            const T xh = static_cast<T>(ldexpq(static_cast<f128>(rng.mantissa<T>()) / 2, Num<T>::emax - j) / big);
+            const T xl = static_cast<T>(ldexpq(static_cast<f128>(rng.mantissa<T>()), Num<T>::emin + j) / small);
+            for (T x : {xh, -xh}) judge<T>(R, tname, pf.second, pt.second, a->second, b->second, x, PhQ::Convert<U, T>(x, from, to), "near-overflow", "runtime");
+            for (T x : {xl, -xl}) judge<T>(R, tname, pf.second, pt.second, a->second, b->second, x, PhQ::Convert<U, T>(x, from, to), "near-underflow", "runtime");
+          }
+        }
       });
       R.count(std::string("pairs_") + Num<T>::name);
     }
@@ -176,7 +192,7 @@ static void run_static_T(Reporter& R, const Args& A, const char* tname, uint64_t
   const auto& orc = oit->second;
   auto s = orc.find(static_cast<int>(PhQ::Standard<U>));
   if (s == orc.end()) return;
-  const int K = static_cast<int>(A.n("values", A.thorough() ? 600 : 24));
+  const int K = static_cast<int>(A.n("values", A.thorough() ? 600 : 64));
   for_each_named<U>([&](auto tag) {
     constexpr U u = decltype(tag)::value;
     if (!A.mine(tindex * 131 + static_cast<uint64_t>(static_cast<int>(u)) + 17)) return;
